@@ -34,7 +34,7 @@ PROPS["C14"] = dict(engines=["alatest", "alatestthr"], design="5/C14",
          "NewestDelivered under fairness; a notify from the pushing thread is refuted); real runs with the loop in streamz' background "
          "thread and pushes by emit(x, asynchronous=True) from another thread are validated against it.",
     note="Trusted: TLC; virtual-time loop (harness/vloop.py); RunNotify/CbWait are silent steps inferred by TLC; one producer; threaded runs: "
-         "event-gated waits, 'never comes out' = not within 4 s of an idle machine's loop thread.")
+         "event-gated waits, 'never comes out' = not within 10 s.")
 PROPS["C13"] = dict(engines=["arate", "abuffer"], design="5/C13",
     technique="TLA+ spec AsyncRateLimit (TLC exhaustive over arrival-time patterns) + trace validation of the real rate_limit/delay nodes with virtual timestamps",
     text="AsyncRateLimit.tla models the reservation taken before sleeping and deadline-ordered timers on an integer clock; TLC checks "
